@@ -616,10 +616,65 @@ func runC13(c C13Case, cs *kit.CaseStats) (err error) {
 				}
 			}
 		}
+		// a block confirming only the first pool transaction, and as the very
+		// next pool access the broadcast set of a transaction with pooled
+		// parents that has nothing to do with it: same parents as before
+		l := tip.Ledger
+		if len(pool) >= 3 {
+			firstID := pool[0].ID()
+			for _, ks := range kept {
+				if len(ks.set) < 2 || ks.target == firstID {
+					continue
+				}
+				related := false
+				for _, m := range ks.set {
+					if m.ID() == firstID {
+						related = true
+					}
+				}
+				if related {
+					continue
+				}
+				b := kit.AssembleBlock(l.State, l.Block.Timestamp.Add(1e9), kit.Actors[3].Addr, nil, []types.V2Transaction{pool[0]}, 6999)
+				nl, aerr := l.Apply(b, nil)
+				if aerr != nil {
+					break
+				}
+				if aerr := node.CM.AddBlocks([]types.Block{b}); aerr != nil {
+					return fmt.Errorf("a block confirming the first pool transaction, accepted by the reference, was rejected: %v", aerr)
+				}
+				gotBasis, got, serr := node.CM.V2TransactionSet(ks.basis, ks.set[len(ks.set)-1].DeepCopy())
+				if _, still := node.CM.V2PoolTransaction(ks.target); still {
+					allThere := true
+					for _, m := range ks.set {
+						if _, ok := node.CM.V2PoolTransaction(m.ID()); !ok {
+							allThere = false
+						}
+					}
+					if allThere {
+						if serr != nil {
+							return fmt.Errorf("V2TransactionSet as the first pool access after a block that confirmed an unrelated earlier pool transaction failed: %v", serr)
+						}
+						if gotBasis != nl.Index() || fmt.Sprint(txIDs(got)) != fmt.Sprint(txIDs(ks.set)) {
+							return fmt.Errorf("V2TransactionSet for %v as the first pool access after a block that confirmed the unrelated first pool transaction returned %v (basis %v), before the block it was %v", ks.target, txIDs(got), gotBasis, txIDs(ks.set))
+						}
+						cs.Class("broadcast-set-first-access-after-unrelated-confirmation")
+					}
+				}
+				l = nl
+				// the kept sets now refer to an older tip; refresh them for the next phase
+				kept = kept[:0]
+				for _, target := range node.CM.V2PoolTransactions() {
+					if b2, g2, e2 := node.CM.V2TransactionSet(l.Index(), target.DeepCopy()); e2 == nil {
+						kept = append(kept, keptSet{target.ID(), b2, g2, encV2s(g2)})
+					}
+				}
+				break
+			}
+		}
 		// the caller keeps the assembled sets (as a wallet does for
 		// re-broadcasting) while the tip moves: they are the caller's own
 		// values, so nothing the pool does afterwards may show in them
-		l := tip.Ledger
 		for k := 0; k < 6; k++ {
 			b := kit.AssembleBlock(l.State, l.Block.Timestamp.Add(1e9), kit.Actors[k%kit.NumActors].Addr, nil, nil, uint64(7000+k))
 			nl, aerr := l.Apply(b, nil)
